@@ -46,6 +46,7 @@ def run(rep, pool, driver, tier):
     _write_read(rep, pool, driver, r, quick)
     _kernels(rep, pool, driver, r, quick)
     _kernels_wh(rep, pool, driver, r, quick)
+    _empty_file_list(rep, pool, driver)
     _kernels_wh_wide(rep, pool, driver, quick)
     _bad_header(rep, pool, driver, r, quick)
     # > 2^32 cells (sparse backing file): cheap, because the kernels only touch the requested rows;
@@ -78,6 +79,12 @@ def _write_read(rep, pool, driver, r, quick):
         s = r.randint(0, n - 1)
         cases.append(({'events': es, 'start': s, 'stop': r.randint(s + 1, n + 1), 'policy': r.choice(['dedup', 'keep'])},
                       'random_wide'))
+    # windows at and beyond the limits of the 4-byte count field: stop < start and stop - start >= 2^32 raise
+    # OverflowError (to_bytes), 2^32 - 1 is the default (model: write_window_overflow / write_read_window)
+    rw = rng('C06/window_limits')
+    for es in ([], [[[0], [1]]], [[[0, 1], [1]], [[2], []], [[1], [0]]]):
+        for s, t in ((3, 1), (1, 0), (0, 2 ** 32), (0, 2 ** 32 - 1), (1, 2 ** 32 + 1), (2, 2 ** 32 + 1), (0, 2 ** 40)):
+            cases.append(({'events': es, 'start': s, 'stop': t, 'policy': rw.choice(['error', 'dedup', 'keep'])}, 'window_limits'))
     impls = pool.map([dict(c, op='write_events') for c, _ in cases])
     models = driver.ask([dict(c, op='encode') for c, _ in cases])
     dec_reqs, dec_idx = [], []
@@ -188,6 +195,40 @@ def _kernels(rep, pool, driver, r, quick):
                            'expected': model['cells'][:8], 'theorem_or_stream': 'C06 kernel_decode_encode + C01 kernelRowEvent_spec: %s on model-written chunks' % t['entry']})
         elif len(t['chunks']) > 1:
             rep.sample({'entry': t['entry'], 'shape': t['shape'], 'rows': t['rows'], 'n_chunks': len(t['chunks']), 'cells': impl['cells'][:4]})
+
+
+def _empty_file_list(rep, pool, driver):
+    """an EMPTY list of chunk files: the two binary->binary entry points report their initial error code
+    (IOError — the reason ndl.ndl raises on a zero-event file, C06.empty_file_list_raises); the three
+    Widrow-Hoff entry points return normally and leave the weights as they are"""
+    p = {'alpha': '1/2', 'beta1': '1/4', 'beta2': '1/8', 'lambda': '1', 'eta': '1/4'}
+    init = ['1/2', '-3/4', '0/1', '5/4']
+    tasks, reqs = [], []
+    for entry in ('par_b2b', 'omp_b2b'):
+        tasks.append(dict(p, op='kernel', entry=entry, chunks=[], shape=[2, 2], rows=[0, 1], chunk=1, n_jobs=2, init=init))
+        reqs.append(dict(p, op='kernel_b2b', entry='openmp' if entry == 'omp_b2b' else 'threading', chunks=[], n_cues=2, n_out=2,
+                         rows=[0, 1], chunk=1, init=init))
+    cv = [['1/1', '0/1'], ['1/2', '1/1']]
+    ov = [['1/1', '-1/1'], ['0/1', '1/2']]
+    for entry in ('omp_b2r', 'omp_r2b', 'omp_r2r'):
+        tasks.append(dict(p, op='kernel', entry=entry, chunks=[], shape=[2, 2], chunk=1, n_jobs=2, cue_vectors=cv, outcome_vectors=ov))
+        reqs.append(dict(p, op='kernel_wh', entry=entry, chunks=[], n_rows=2, n_cols=2, chunk=1, n_out_dims=2, cue_vectors=cv,
+                         outcome_vectors=ov))
+    impls = pool.map(tasks)
+    models = driver.ask(reqs)
+    for t, impl, model in zip(tasks, impls, models):
+        rep.case({'entry': t['entry'], 'chunks': []}, nontrivial=True, stream='empty_file_list')
+        want = model.get('err')
+        got = impl.get('err')
+        rep.count('empty_file_list:%s -> %s' % (t['entry'], want or 'returns'))
+        prob = None
+        if want != got:
+            prob = 'empty file list: entry point %s %s, model %s' % (t['entry'], got or 'returns', want or 'returns')
+        elif not want and any(frac(v) != 0 for _, v in impl.get('cells', [])) != any(frac(v) != 0 for _, v in model.get('cells', [])):
+            prob = 'empty file list: weights changed'
+        if prob:
+            rep.violation({'what': prob, 'input': {k: v for k, v in t.items()}, 'observed': impl, 'expected': model,
+                           'theorem_or_stream': 'C06 empty_file_list_raises / learnChunks [] (%s)' % t['entry']})
 
 
 def _kernels_wh(rep, pool, driver, r, quick):
